@@ -176,9 +176,17 @@ def _worker(rng):
     for i, spec in enumerate(specs):
         skipped = {key for t in tabs[i].values() for key, obs in t.items() if obs == ("skipped",)}
         if skipped:
+            # a case that timed out in some mode stays in judgement (a "skipped" entry next to it counts as a timeout too: it was
+            # skipped because the verdict was settled); only cases that no mode actually ran to a timeout are dropped
+            timed_out = {key for t in tabs[i].values() for key, obs in t.items() if obs == ("timeout",)}
             for t in tabs[i].values():
                 for key in skipped:
-                    t.pop(key, None)
+                    if key in timed_out:
+                        if t.get(key) == ("skipped",):
+                            t[key] = ("timeout",)
+                    else:
+                        t.pop(key, None)
+            skipped -= timed_out
         model_obs = None
         if check.need_model:
             model_obs = {}
